@@ -205,6 +205,13 @@ def stream_b(ctx, lines, pending):
         cfg['wuv'] = C7.gen_weights(rng, n)
         cfg['wmode'] = 'both'
         cfg['family'] = 'harmonic'
+        if rng.random() < 0.25:
+            # integer-valued weights handed over in integer-typed arrays (one side or both): the harmonic
+            # combination is not an integer
+            cfg['wxy'] = [float(rng.choice([0, 1, 1, 2, 3, 5, 8])) for _ in range(n)]
+            cfg['wuv'] = [float(rng.choice([0, 1, 2, 2, 3, 4, 7])) for _ in range(n)]
+            cfg['wint'] = rng.choice(['wxy', 'wuv', 'both'])
+            cfg['family'] = 'harmonic-int'
         w = harmonic_vec(cfg['wxy'], cfg['wuv'])
         hist = [C7.impl_call(cfg, k) for k in C7.NCLIPS]
         case = dict(cfg)
@@ -221,6 +228,7 @@ def stream_b(ctx, lines, pending):
             ce['wuv'] = w if side == 'wuv' else None
             ce['wmode'] = side
             ce['family'] = 'harmonic-explicit'
+            ce['wint'] = None
             he = [C7.impl_call(ce, k) for k in C7.NCLIPS]
             ctx.evaluations += len(C7.NCLIPS)
             ctx.impl_traces += len(C7.NCLIPS)
@@ -326,6 +334,10 @@ def gen_group(rng):
     for r in range(nref):
         if rng.random() < 0.06:
             spec['ref_w'][r] = 0.0
+    if rng.random() < 0.25:
+        # integer reference weights in an integer-typed column
+        spec['ref_w'] = [float(round(v)) for v in spec['ref_w']]
+        spec['ref_w_int'] = True
     pairs = [t for t in range(total) if rng.random() < 0.85]
     if len(pairs) < 4:
         pairs = list(range(total))
@@ -413,7 +425,10 @@ def run_group(ctx, spec, lines, pending):
     cols = [np.asarray(rra, dtype=float), np.asarray(rdec, dtype=float)]
     names = ['RA', 'DEC']
     if spec['ref_weights']:
-        cols.append(np.array(spec['ref_w'][:nref], dtype=float))
+        rw = np.array(spec['ref_w'][:nref], dtype=float)
+        if spec.get('ref_w_int'):
+            rw = rw.astype(np.int64)      # an integer-typed weight column (the values are integers already)
+        cols.append(rw)
         names.append('weight')
     ref = RefCatalog(Table(cols, names=names), name='ref')
     ref.calc_tanp_xy(tp)
